@@ -136,6 +136,8 @@ def gen_case(rnd, idx):
     elif r < 0.85:
         c["kind"] = "auto"
         c["auto_bin_max"] = rnd.choice([1, 2, 3, 4, 5, 7, 8, 16, 64, rnd.randint(1, 70)])
+        c["abm_at"] = rnd.choice(["cp", "cp", "cg", "cg", "both"])
+        c["cp_opts"] = rnd.choice([None, {"at_least": 2}, {"weight": 3}, {"at_least": 3, "weight": 2}])
     else:
         c["kind"] = "enum"
         n = rnd.randint(2, 6)
